@@ -143,3 +143,37 @@ def done(fut):
 
 def exc_name(e):
     return type(e).__name__
+
+
+def scripted_policy(decisions, log):
+    """RetryPolicy answering with the generated [kind, cl-name] decisions in order (RETHROW when the
+    script is exhausted) and recording every consultation with all its arguments."""
+    from cassandra.policies import RetryPolicy
+
+    class Scripted(RetryPolicy):
+        def _next(self, method, query, retry_num, **info):
+            i = len(log)
+            d = decisions[i] if i < len(decisions) else ["rethrow", None]
+            log.append({"method": method, "retry_num": retry_num, "decision": d, "info": info, "query": query})
+            kind = d[0]
+            cl = CL_CODE[d[1]] if len(d) > 1 and d[1] is not None else None
+            if kind == "retry":
+                return (RetryPolicy.RETRY, cl)
+            if kind == "next_host":
+                return (RetryPolicy.RETRY_NEXT_HOST, cl)
+            if kind == "ignore":
+                return (RetryPolicy.IGNORE, None)
+            return (RetryPolicy.RETHROW, None)
+
+        def on_read_timeout(self, query, consistency, required_responses, received_responses, data_retrieved, retry_num):
+            return self._next("read_timeout", query, retry_num, consistency=consistency)
+
+        def on_write_timeout(self, query, consistency, write_type, required_responses, received_responses, retry_num):
+            return self._next("write_timeout", query, retry_num, consistency=consistency)
+
+        def on_unavailable(self, query, consistency, required_replicas, alive_replicas, retry_num):
+            return self._next("unavailable", query, retry_num, consistency=consistency)
+
+        def on_request_error(self, query, consistency, error, retry_num):
+            return self._next("request_error", query, retry_num, consistency=consistency, error=type(error).__name__)
+    return Scripted()
